@@ -20,7 +20,8 @@
   Oddities kept: a NUL byte is dropped (its code is `NullCodepoint`); an ill-formed sequence is dropped
   silently and the offending byte is re-read as the start of a new sequence; a truncated sequence at
   the end leaves the parser mid-sequence; `_u_string` output is walked up to the first NUL byte by
-  `Insert`; `operator[]` has no bounds check (`hazardOob`).
+  `Insert`; `operator[]` has no bounds check of its own, but `case At` of the plugin raises INDEX_RANGE for a position
+  outside `[0, count)` before calling it (`hazardOob` stays in the vocabulary; `utf8_args_total` proves it unreachable).
 -/
 
 namespace BlocV.Mod.Utf8
@@ -162,6 +163,8 @@ inductive PRes (α : Type)
   | ok (v : α)
   /-- `throw RuntimeError(EXC_RT_OTHER_S, "Invalid arguments.")` -/
   | invalidArgs
+  /-- `throw RuntimeError(EXC_RT_INDEX_RANGE_S, …)` -/
+  | indexRange
   /-- `store[pos]` with `pos >= store.size()` -/
   | hazardOob
   deriving DecidableEq, Repr
@@ -175,13 +178,16 @@ def toCodepoint (i : Int64) : Nat := i.toUInt64.toNat % 2 ^ 32
 /-- `case utf8::Size`. -/
 def pluginCount (s : UStr) : Nat := size s
 
-/-- `case utf8::At`: null → error; otherwise `u->operator[](*a0.integer())`, unchecked. -/
+/-- `case utf8::At`: null → "Invalid arguments"; `i < 0 || (uint64_t) i >= (uint64_t) u->Size()` → INDEX_RANGE;
+    otherwise `u->operator[](*a0.integer())`. -/
 def pluginAt (s : UStr) (a0 : Option Int64) : PRes Nat :=
   match a0 with
   | none => .invalidArgs
-  | some i => match s.store[toSizeT i]? with
-    | some u => .ok u
-    | none => .hazardOob
+  | some i =>
+    if i.toInt < 0 ∨ size s ≤ toSizeT i then .indexRange
+    else match s.store[toSizeT i]? with
+      | some u => .ok u
+      | none => .hazardOob
 
 /-- `case utf8::Substr1` (`n` defaults to `(size_t)-1`) and `Substr2`. -/
 def pluginSubstr1 (s : UStr) (a0 : Option Int64) : PRes (List UInt8) :=
